@@ -14,11 +14,11 @@ package synchronizer
 // are evaluated on the recorded Sign calls.
 
 import (
-	"os"
 	"context"
 	"crypto/sha256"
 	"encoding/binary"
 	"fmt"
+	"os"
 	"strings"
 	"testing"
 	"time"
@@ -59,6 +59,25 @@ func (s *c03Signer) Sign(message []byte) (hotstuff.QuorumSignature, error) {
 	}
 	return s.Base.Sign(message)
 }
+
+// c03Sender is the replica's core.Sender.  Like the real network.GorumsSender, whose Vote returns
+// an error while the receiver is not (yet) in the replica table, it can be told to fail vote sends.
+type c03Sender struct {
+	*testutil.MockSender
+	w *c03World
+}
+
+func (s *c03Sender) Vote(id hotstuff.ID, pc hotstuff.PartialCert) error {
+	if s.w.failVotes {
+		if s.w.cur != nil {
+			s.w.cur.sendFailed++
+		}
+		return fmt.Errorf("replica does not exist (id=%d)", id)
+	}
+	return s.MockSender.Vote(id, pc)
+}
+
+var _ core.Sender = (*c03Sender)(nil)
 
 type c03RuleCall struct {
 	hash    hotstuff.Hash
@@ -107,46 +126,48 @@ type c03SI struct {
 }
 
 type c03Inv struct {
-	kind      int // 0 proposal, 1 timeout event, 2 new-view
-	prop      hotstuff.ProposeMsg
-	tview     hotstuff.View
-	si        c03SI
-	signs     [][]byte
-	rules     []c03RuleCall
-	owns      []*hotstuff.ProposeMsg
-	viewAfter hotstuff.View
+	kind       int // 0 proposal, 1 timeout event, 2 new-view
+	prop       hotstuff.ProposeMsg
+	tview      hotstuff.View
+	si         c03SI
+	signs      [][]byte
+	rules      []c03RuleCall
+	owns       []*hotstuff.ProposeMsg
+	viewAfter  hotstuff.View
+	sendFailed int // vote sends that returned an error during this invocation
 }
 
 type c03World struct {
-	t        testing.TB
-	ruleName string
-	cryptoNm string
-	agg      bool
-	self     hotstuff.ID
-	cfg      *core.RuntimeConfig
-	el       *eventloop.EventLoop
-	syn      *Synchronizer
-	states   *protocol.ViewStates
-	cmds     *clientpb.CommandCache
-	others   []*cert.Authority
-	otherID  hotstuff.ID
-	pool     *blockchain.Blockchain
-	blocks   []*hotstuff.Block
-	known    map[hotstuff.Hash]*hotstuff.Block
-	qcs      map[string]c03QCInfo
-	qcMemo   map[string]hotstuff.QuorumCert
-	wf       map[hotstuff.Hash]bool         // blocks an honest replica running the repaired Verify could vote for
-	certIn   map[hotstuff.View]hotstuff.Hash // the one block per view that got a quorum
-	aggs     map[*hotstuff.AggregateQC]bool // aggregate part of VerifyAnyQC succeeds (ground truth)
-	intern   map[hotstuff.Hash]uint64
-	invs     []*c03Inv
-	cur      *c03Inv
-	pending  []c03SI
-	stray    [][]byte
-	seq      uint64
-	nonce    uint64
-	lastMsg  *hotstuff.ProposeMsg
-	notes    []string
+	t         testing.TB
+	ruleName  string
+	cryptoNm  string
+	agg       bool
+	self      hotstuff.ID
+	cfg       *core.RuntimeConfig
+	el        *eventloop.EventLoop
+	syn       *Synchronizer
+	states    *protocol.ViewStates
+	cmds      *clientpb.CommandCache
+	others    []*cert.Authority
+	otherID   hotstuff.ID
+	pool      *blockchain.Blockchain
+	blocks    []*hotstuff.Block
+	known     map[hotstuff.Hash]*hotstuff.Block
+	qcs       map[string]c03QCInfo
+	qcMemo    map[string]hotstuff.QuorumCert
+	wf        map[hotstuff.Hash]bool          // blocks an honest replica running the repaired Verify could vote for
+	certIn    map[hotstuff.View]hotstuff.Hash // the one block per view that got a quorum
+	aggs      map[*hotstuff.AggregateQC]bool  // aggregate part of VerifyAnyQC succeeds (ground truth)
+	intern    map[hotstuff.Hash]uint64
+	invs      []*c03Inv
+	cur       *c03Inv
+	pending   []c03SI
+	stray     [][]byte
+	seq       uint64
+	nonce     uint64
+	lastMsg   *hotstuff.ProposeMsg
+	notes     []string
+	failVotes bool // core.Sender.Vote returns an error
 }
 
 func c03Leader(view hotstuff.View) hotstuff.ID { return hotstuff.ID(uint64(view)%c03N + 1) }
@@ -176,7 +197,8 @@ func c03NewWorld(t testing.TB, ruleName, cryptoName string, self hotstuff.ID) *c
 	}
 	sub := set[int(self)-1]
 	w.cfg, w.el = sub.RuntimeCfg(), sub.EventLoop()
-	logger, sender := sub.Logger(), sub.MockSender()
+	logger := sub.Logger()
+	var sender core.Sender = &c03Sender{MockSender: sub.MockSender(), w: w}
 	base, err := crypto.New(w.cfg, cryptoName)
 	if err != nil {
 		t.Fatal(err)
@@ -423,16 +445,21 @@ type c03Stim struct {
 	ViewOff  int    `json:"view_off,omitempty"` // relative to the replica's current view at delivery
 	Abs      bool   `json:"abs,omitempty"`
 	AbsView  uint64 `json:"abs_view,omitempty"`
-	Sender   string `json:"sender,omitempty"`    // leader | wrong
-	QCTarget string `json:"qc_target,omitempty"` // tip | older | genesis | above
-	QCKind   string `json:"qc_kind,omitempty"`   // genuine | subquorum | forged | unknown
-	Parent   string `json:"parent,omitempty"`    // qc | other | random
-	Agg      string `json:"agg,omitempty"`       // "" | valid | mismatch | subquorum
-	Proposer string `json:"proposer,omitempty"`  // "" (= sender) | other
-	K        int    `json:"signers,omitempty"`   // tc: number of signers (3 = quorum)
+	Sender   string `json:"sender,omitempty"`         // leader | wrong
+	QCTarget string `json:"qc_target,omitempty"`      // tip | older | genesis | above
+	QCKind   string `json:"qc_kind,omitempty"`        // genuine | subquorum | forged | unknown
+	Parent   string `json:"parent,omitempty"`         // qc | other | random
+	Agg      string `json:"agg,omitempty"`            // "" | valid | mismatch | subquorum
+	Proposer string `json:"proposer,omitempty"`       // "" (= sender) | other
+	K        int    `json:"signers,omitempty"`        // tc: number of signers (3 = quorum)
+	FailSend bool   `json:"fail_vote_send,omitempty"` // core.Sender.Vote fails while this stimulus is handled
 }
 
 func (s c03Stim) String() string {
+	if s.FailSend {
+		s.FailSend = false
+		return s.String() + "!sendfails"
+	}
 	switch s.Kind {
 	case "propose":
 		v := fmt.Sprintf("%+d", s.ViewOff)
@@ -454,6 +481,8 @@ func c03ViewAt(cur hotstuff.View, off int) hotstuff.View {
 }
 
 func (w *c03World) apply(s c03Stim) any {
+	w.failVotes = s.FailSend
+	defer func() { w.failVotes = false }()
 	cur := w.states.View()
 	switch s.Kind {
 	case "propose":
@@ -724,14 +753,15 @@ func (s c03Sig) term() string {
 }
 
 type c03InvMeta struct {
-	Event     string    `json:"event"`
-	Proposal  *c03Prop  `json:"proposal,omitempty"`
-	Own       *c03Prop  `json:"own_proposal,omitempty"`
-	TView     uint64    `json:"timeout_view,omitempty"`
-	SIOk      bool      `json:"sync_info_ok"`
-	SIView    uint64    `json:"sync_info_view"`
-	Signed    []c03Sig  `json:"signed"`
-	ViewAfter uint64    `json:"view_after"`
+	Event     string   `json:"event"`
+	Proposal  *c03Prop `json:"proposal,omitempty"`
+	Own       *c03Prop `json:"own_proposal,omitempty"`
+	TView     uint64   `json:"timeout_view,omitempty"`
+	SIOk      bool     `json:"sync_info_ok"`
+	SIView    uint64   `json:"sync_info_view"`
+	Signed    []c03Sig `json:"signed"`
+	ViewAfter uint64   `json:"view_after"`
+	SendFails int      `json:"vote_sends_failed,omitempty"`
 }
 
 type c03Run struct {
@@ -768,7 +798,7 @@ func (w *c03World) finish(v *verifOut, st *verifStream, stimuli []c03Stim, strea
 		fails = append(fails, failure{fp, what})
 	}
 	for i, inv := range w.invs {
-		m := c03InvMeta{SIOk: inv.si.ok, SIView: uint64(inv.si.view), ViewAfter: uint64(inv.viewAfter), TView: uint64(inv.tview)}
+		m := c03InvMeta{SIOk: inv.si.ok, SIView: uint64(inv.si.view), ViewAfter: uint64(inv.viewAfter), TView: uint64(inv.tview), SendFails: inv.sendFailed}
 		own := "None"
 		var ownD *c03Prop
 		if len(inv.owns) > 0 {
@@ -788,13 +818,13 @@ func (w *c03World) finish(v *verifOut, st *verifStream, stimuli []c03Stim, strea
 			pd = &d
 			m.Proposal = &d
 			m.Event = "proposal"
-			ev = fmt.Sprintf("EvProposal %s %s", d.term(), own)
+			ev = fmt.Sprintf("EvProposal %s %s %s", d.term(), own, gBool(inv.sendFailed == 0))
 		case 1:
 			m.Event = "timeout-event"
-			ev = fmt.Sprintf("EvTimeout %s %s %s %s", gN(uint64(inv.tview)), gBool(inv.si.ok), gN(uint64(inv.si.view)), own)
+			ev = fmt.Sprintf("EvTimeout %s %s %s %s %s", gN(uint64(inv.tview)), gBool(inv.si.ok), gN(uint64(inv.si.view)), own, gBool(inv.sendFailed == 0))
 		case 2:
 			m.Event = "new-view " + inv.si.desc
-			ev = fmt.Sprintf("EvNewView %s %s %s", gBool(inv.si.ok), gN(uint64(inv.si.view)), own)
+			ev = fmt.Sprintf("EvNewView %s %s %s %s", gBool(inv.si.ok), gN(uint64(inv.si.view)), own, gBool(inv.sendFailed == 0))
 		}
 		var ss []string
 		for _, raw := range inv.signs {
@@ -907,6 +937,9 @@ func (w *c03World) finish(v *verifOut, st *verifStream, stimuli []c03Stim, strea
 		if len(inv.owns) > 0 {
 			v.Count(stream + "/own_proposals")
 		}
+		if inv.sendFailed > 0 {
+			v.CountN(stream+"/vote_sends_failed", inv.sendFailed)
+		}
 	}
 	for _, n := range w.notes {
 		v.Note(w.ruleName + ": " + n)
@@ -1017,6 +1050,25 @@ func TestVerifC03(t *testing.T) {
 	tEx := time.Since(t0)
 	fmt.Fprintf(os.Stderr, "C03: exhaustive stream done after %.1fs\n", tEx.Seconds())
 
+	// 1b. the vote cannot be handed to the network (core.Sender.Vote returns an error, as the real
+	// sender does while the next leader is not in its replica table): the block is signed all the
+	// same, so the view must stay closed for an equivocating second block, for a retransmission
+	// and for older views, in every prepared state
+	sf := v.Stream("sendfail", "mismatches", 100)
+	for _, rn := range c03Rulesets {
+		agg := rn == rules.NameFastHotStuff
+		pre := c03Prefixes(agg)
+		for _, self := range []hotstuff.ID{1, 3} {
+			for _, pn := range prefixNames {
+				for _, tail := range c03SendFailTails(agg) {
+					seq := append(append([]c03Stim{}, pre[pn]...), tail...)
+					c03RunOne(t, v, sf, "sendfail", rn, crypto.NameECDSA, self, seq)
+				}
+			}
+		}
+	}
+	fmt.Fprintf(os.Stderr, "C03: send-failure stream done after %.1fs\n", time.Since(t0).Seconds())
+
 	// 2. seeded random schedules
 	rnd := v.Stream("random", "mismatches", 200)
 	nRandom := v.Pick(450, 9000)
@@ -1050,6 +1102,12 @@ func TestVerifC03(t *testing.T) {
 }
 
 func c03RandomStim(v *verifOut, agg bool) c03Stim {
+	s := c03RandomStim0(v, agg)
+	s.FailSend = s.Kind != "timeout" && v.rng.Intn(5) == 0
+	return s
+}
+
+func c03RandomStim0(v *verifOut, agg bool) c03Stim {
 	pick := func(xs ...string) string { return xs[v.rng.Intn(len(xs))] }
 	switch r := v.rng.Intn(100); {
 	case r < 30:
@@ -1079,6 +1137,48 @@ func c03RandomStim(v *verifOut, agg bool) c03Stim {
 		return c03Stim{Kind: "tc", ViewOff: []int{0, 0, 0, -1, 1, 2}[v.rng.Intn(6)], K: []int{3, 3, 3, 3, 2}[v.rng.Intn(5)]}
 	default:
 		return c03Stim{Kind: "qc", ViewOff: []int{0, 0, 1, 3}[v.rng.Intn(4)], QCKind: pick("genuine", "genuine", "subquorum", "forged")}
+	}
+}
+
+// c03SendFailTails: what follows a prepared state when vote sends fail.
+func c03SendFailTails(agg bool) [][]c03Stim {
+	fail := func(s c03Stim) c03Stim { s.FailSend = true; return s }
+	tc := c03Stim{Kind: "tc", K: 3}
+	to := c03Stim{Kind: "timeout"}
+	rp := c03Stim{Kind: "replay"}
+	f0 := fail(c03Honest(0))
+	next := []c03Stim{c03Honest(1)} // how the next view is reached and proposed in
+	fnext := []c03Stim{fail(c03Honest(1))}
+	if agg {
+		next = []c03Stim{tc, c03Honest(0)}
+		fnext = []c03Stim{fail(tc), fail(c03Honest(0))}
+	}
+	cat := func(parts ...[]c03Stim) []c03Stim {
+		var r []c03Stim
+		for _, p := range parts {
+			r = append(r, p...)
+		}
+		return r
+	}
+	return [][]c03Stim{
+		// send fails, then the leader equivocates with a second block for the view, then retransmits
+		{f0, c03Honest(0), rp},
+		// send fails, the same proposal is retransmitted (twice, the second time the send works), then a second block
+		{f0, fail(rp), rp, c03Honest(0)},
+		// send fails, later views follow, then blocks for the old views come back
+		cat([]c03Stim{f0}, next, next, []c03Stim{c03Honest(-1), c03Honest(-2), rp}),
+		// every send fails over several rounds, then equivocation in the last and earlier views
+		cat([]c03Stim{f0}, fnext, fnext, []c03Stim{c03Honest(0), c03Honest(-1), fail(c03Honest(0))}),
+		// send fails, a TC moves on, the next round works, the old view is offered again
+		{f0, tc, c03Honest(0), c03Honest(-1), fail(c03Honest(-1))},
+		// send fails, then the local timer fires, then a second block and a retransmission
+		{f0, to, c03Honest(0), rp, fail(c03Honest(0))},
+		// sends fail while certificates move the replica through views it leads itself
+		{fail(c03Stim{Kind: "qc"}), fail(tc), fail(tc), fail(tc), c03Honest(0), c03Honest(0), fail(c03Honest(-1))},
+		// crafted second block with another parent / a wrong sender after the failed send
+		{f0, {Kind: "propose", Sender: "leader", QCTarget: "tip", QCKind: "genuine", Parent: "other"},
+			{Kind: "propose", Sender: "wrong", QCTarget: "tip", QCKind: "genuine", Parent: "qc"},
+			{Kind: "propose", Sender: "leader", QCTarget: "older", QCKind: "genuine", Parent: "qc"}},
 	}
 }
 
